@@ -57,6 +57,10 @@ package tx
 //@ macro overwrites(m, w, j) = in(m, w) && 0 <= j && j < len(m[w].TxInputsExt) && writesKeyS(m[w], kin(m, w, j))
 //@ macro oneOverwriter(m) = (forall w1 string, j1 int, w2 string, j2 int :: overwrites(m, w1, j1) && overwrites(m, w2, j2) && vkOf(kin(m, w1, j1)) == vkOf(kin(m, w2, j2)) ==> w1 == w2)
 //@ macro readerEdges(m, g, ow, r, n) = (forall i int, w string, j int :: 0 <= i && i < n && overwrites(m, w, j) && vkOf(kin(m, r, i)) == vkOf(kin(m, w, j)) && w != r && !writesKeyS(m[r], kin(m, r, i)) ==> hasEdge(g, r, w))
+// readerEdgesT: the same, phrased over the lookup table the function builds (what the
+// second pass literally does); the loops carry this form, the postcondition is derived
+// from it once, with the table's soundness and completeness.
+//@ macro readerEdgesT(m, g, ow, r, n) = (forall i int :: 0 <= i && i < n && in(ow, vkOf(kin(m, r, i))) && ow[vkOf(kin(m, r, i))] != r && !writesKeyS(m[r], kin(m, r, i)) ==> hasEdge(g, r, ow[vkOf(kin(m, r, i))]))
 //@ macro owComplete(m, ow, w, n) = (forall j int :: 0 <= j && j < n && overwrites(m, w, j) ==> in(ow, vkOf(kin(m, w, j))))
 //@ macro owSound(m, ow) = (forall v int :: in(ow, v) ==> (exists j int :: overwrites(m, ow[v], j) && vkOf(kin(m, ow[v], j)) == v))
 //@ func addReadBeforeOverwriteEdges
@@ -68,11 +72,11 @@ package tx
 //@   loop 1 invariant overwriters_of_visited: overwriter != nil && owSound(txMap, overwriter) && (forall w string :: in($visited, w) ==> owComplete(txMap, overwriter, w, len(txMap[w].TxInputsExt)))
 //@   loop 2 invariant overwriters_so_far: overwriter != nil && in(txMap, txID) && txMap[txID] == tx && owSound(txMap, overwriter) && owComplete(txMap, overwriter, txID, $i) && (forall w string :: in($visited#1, w) && w != txID ==> owComplete(txMap, overwriter, w, len(txMap[w].TxInputsExt)))
 //@   loop 3 invariant kept: (forall k string :: len(txGraph[k]) >= 0) && (forall a string, b string :: old(hasEdge(txGraph, a, b)) ==> hasEdge(txGraph, a, b))
-//@   loop 3 invariant readers_of_visited: overwriter != nil && owSound(txMap, overwriter) && (forall w string :: in(txMap, w) ==> owComplete(txMap, overwriter, w, len(txMap[w].TxInputsExt))) && (oneOverwriter(txMap) ==> (forall r string :: in($visited, r) ==> readerEdges(txMap, txGraph, 0, r, len(txMap[r].TxInputsExt))))
+//@   loop 3 invariant readers_of_visited: overwriter != nil && owSound(txMap, overwriter) && (forall w string :: in(txMap, w) ==> owComplete(txMap, overwriter, w, len(txMap[w].TxInputsExt))) && (forall r string :: in($visited, r) ==> in(txMap, r) && readerEdgesT(txMap, txGraph, overwriter, r, len(txMap[r].TxInputsExt)))
 //@   loop 4 invariant kept: (forall k string :: len(txGraph[k]) >= 0) && (forall a string, b string :: old(hasEdge(txGraph, a, b)) ==> hasEdge(txGraph, a, b))
 //@   loop 4 invariant table_fixed: overwriter != nil && in(txMap, txID) && txMap[txID] == tx && owSound(txMap, overwriter) && (forall w string :: in(txMap, w) ==> owComplete(txMap, overwriter, w, len(txMap[w].TxInputsExt)))
-//@   loop 4 invariant readers_so_far: oneOverwriter(txMap) ==> readerEdges(txMap, txGraph, 0, txID, $i)
-//@   loop 4 invariant readers_of_visited_kept: oneOverwriter(txMap) ==> (forall r string :: in($visited#3, r) && r != txID ==> readerEdges(txMap, txGraph, 0, r, len(txMap[r].TxInputsExt)))
+//@   loop 4 invariant readers_so_far: readerEdgesT(txMap, txGraph, overwriter, txID, $i)
+//@   loop 4 invariant readers_of_visited_kept: (forall r string :: in($visited#3, r) && r != txID ==> in(txMap, r) && readerEdgesT(txMap, txGraph, overwriter, r, len(txMap[r].TxInputsExt)))
 
 // lastTxMap / lastOrder: results of the latest SortUnconfirmedTx / TopSortDFS call.
 //@ ghost var lastTxMap Int
